@@ -73,3 +73,23 @@ fn k_over_in_full() {
     kani::cover!(s >> 24 == 255);
     kani::cover!(s >> 24 == 0);
 }
+
+// @ob id=K.alpha_lerp_full props=C03 kind=complete tier=quick timeout=120 fns=sw_composite::alpha_lerp
+// @+ desc="alpha_lerp(d,b,255,255)==b: full coverage under a fully covering clip path yields exactly blend(source, previous)"
+#[kani::proof]
+fn k_alpha_lerp_full() {
+    let b: u32 = kani::any();
+    let d: u32 = kani::any();
+    assert!(alpha_lerp(d, b, 255, 255) == b, "alpha_lerp(d,b,255,255)==b");
+    kani::cover!(true);
+}
+
+// @ob id=K.alpha_lerp_full_residual props=C03 kind=complete tier=quick timeout=120 fns=sw_composite::alpha_lerp residual_of=K.alpha_lerp_full
+// @+ desc="residual of the known finding: alpha_lerp(d,b,255,255) is exactly lerp(d,b,255) (weight 255/256 instead of 256/256), nothing worse; and full coverage without a clip path is exact (K.lerp_full)"
+#[kani::proof]
+fn k_alpha_lerp_full_residual() {
+    let b: u32 = kani::any();
+    let d: u32 = kani::any();
+    assert!(alpha_lerp(d, b, 255, 255) == lerp(d, b, 255), "alpha_lerp(d,b,255,255)==lerp(d,b,255)");
+    kani::cover!(true);
+}
